@@ -233,7 +233,7 @@ func checkC03(c *Ctx) {
 		bad := ""
 		for _, ra := range rearms {
 			tgt := o.arming[ra.Static]
-			if tgt.pktIdx < 0 || !same(ra.p.Resolve(core.Strip(ra.Common.Args[tgt.pktIdx])), registered) {
+			if tgt.pktIdx < 0 || (!same(ra.p.Resolve(core.Strip(ra.Common.Args[tgt.pktIdx])), registered) && !isStoredPacket(ra.p.Resolve(core.Strip(ra.Common.Args[tgt.pktIdx])), s.cb)) {
 				bad = "the packet re-armed on expiry is not the packet that was registered (a different packet or identifier would be retransmitted)"
 			}
 			if tgt.sessIdx >= 0 && s.sessIdx >= 0 && !same(ra.p.Resolve(core.Strip(ra.Common.Args[tgt.sessIdx])), s.fn.Params[s.sessIdx]) {
@@ -464,6 +464,21 @@ func checkC03(c *Ctx) {
 	c.rulePerRecipientWrites("C03-R6")
 	// the in-flight table's side of the contract (also decided under C04)
 	c.ruleAckResolution("C03-T")
+}
+
+// isStoredPacket: v is the callback's stored-packet parameter, type-asserted (stored.(*packet.PubRel)): the table hands
+// each callback the packet that was registered with it (C04).
+func isStoredPacket(v ssa.Value, cb *ssa.Function) bool {
+	v = core.Strip(v)
+	if ex, ok := v.(*ssa.Extract); ok && ex.Index == 0 {
+		v = ex.Tuple
+	}
+	ta, ok := v.(*ssa.TypeAssert)
+	if !ok {
+		return false
+	}
+	prm := cbParam(cb, 1)
+	return prm != nil && core.Strip(ta.X) == ssa.Value(prm)
 }
 
 // isTickerChan: v is the channel of a time.Ticker (t.C, whatever t is: a local, a parameter, a field).
